@@ -304,7 +304,7 @@ def on_cycle(nodes, edges):
 
 
 def shared_target_hazard(tables, cand_ids):
-    """input predicate of known finding F18: a candidate table on a cycle owns both a named
+    """input predicate of known finding F20: a candidate table on a cycle owns both a named
     constraint (use_alter or not) and an unnamed non-use_alter constraint to the same other table"""
     cand = [t for t in tables if t["id"] in cand_ids]
     edges = [(f["ref"], t["id"]) for t in cand for f in t["fkcs"] if not f["ua"] and f["ref"] != t["id"]]
